@@ -643,12 +643,11 @@ pub fn run(rep: &mut Report) {
         Some(v) => std::env::set_var("L4V_JOBS", v),
         None => std::env::remove_var("L4V_JOBS"),
     }
-    if rep.tier == "thorough" && std::env::var("L4V_NO_MIRI").is_err() {
+    // the same stream oracle against log4rs built with its `background_rotation` feature (both tiers)
+    crate::subrun::merge(rep, "L4V_BIN_BGROT", "C05BG", "background_rotation");
+    if rep.tier == "thorough" && std::env::var("L4V_NO_MIRI").is_err() && std::env::var("L4V_SUBRUN").is_err() {
         crate::miri::run_miri_seeds(rep, "C05", 32);
-        if thorough {
-        crate::subrun::merge(rep, "L4V_BIN_BGROT", "C05BG", "background_rotation");
-    }
-    rep.require(rep.counter("miri_seeds_run") >= 32 / 2, "fewer than half of the Miri seeds produced a result");
+        rep.require(rep.counter("miri_seeds_run") >= 32 / 2, "fewer than half of the Miri seeds produced a result");
     }
     rep.require(rep.counter("rotations_observed") > 500, "fewer than 500 rotations observed");
     rep.require(rep.set_size("trigger_kinds") >= 4, "not all trigger kinds were exercised");
@@ -703,14 +702,15 @@ pub fn miri_scenario(rep: &mut Report, rng: &mut Rng) {
 /// spawned thread, so the directory is only judged at quiescent points (no `<stem>.<digits>` temp file left).
 pub fn run_background(rep: &mut Report) {
     hooks::install();
-    let n = if rep.tier == "thorough" { 120 } else { 12 };
+    let n = if rep.tier == "thorough" { 160 } else { 40 };
     let saved = std::env::var("L4V_JOBS").ok();
     std::env::set_var("L4V_JOBS", "4");
     run_cases(rep, "bg", n, |rep, rng, idx| {
         let sc = Scratch::new("c05bg");
         let threads = 1 + rng.usize_below(4);
         let per = 30 + rng.usize_below(90);
-        let limit = *rng.pick(&[60u64, 200, 1024]);
+        // (limits 0 and 10: every append asks for a rotation, rotations follow one another at once)
+        let limit = *rng.pick(&[0u64, 10, 60, 200, 1024]);
         let count = *rng.pick(&[1u32, 2, 3, 40]);
         let comp = if cfg!(feature = "full") && rng.chance(1, 3) { Comp::Gz } else { Comp::None };
         let kind = RollerKind::Window { base: 0, count, comp, pattern_rel: if comp == Comp::Gz { "arch/app.{}.log.gz".into() } else { "arch/app.{}.log".into() } };
